@@ -68,5 +68,12 @@ Text(q, b) == IF q = <<>> THEN b
 \* (IF, not \/ : inside Init/Next TLC explores both disjuncts instead of short-circuiting)
 OuterNullable(q) == IF q = <<>> THEN TRUE ELSE Head(q) # "R"
 
+\* a set of expressions as a sequence in a fixed order (shorter first, "L" before "R")
+RECURSIVE TypeSeqOf(_)
+Rank(q) == LET RECURSIVE R(_) R(s) == IF s = <<>> THEN 0 ELSE (IF Head(s) = "L" THEN 1 ELSE 2) + 3 * R(Tail(s)) IN Len(q) * 100000 + R(q)
+TypeSeqOf(S) == IF S = {} THEN <<>>
+                ELSE LET m == CHOOSE x \in S : \A y \in S : Rank(x) <= Rank(y)
+                     IN  <<m>> \o TypeSeqOf(S \ {m})
+
 HasList(q) == \E i \in 1..Len(q) : q[i] = "L"
 =============================================================================
